@@ -1840,6 +1840,17 @@ class Interp:
             sym = self.lib.symbolic_comprehension_source(self, src)
             if sym is not None:
                 raise _SymComp(i, src)
+            if isinstance(src, LazyGen):
+                # a generator of the analysed code: pulled one item at a time, so that what the comprehension does with
+                # item j (e.g. modify it in place) happens BEFORE the generator computes item j+1 - as in CPython
+                while True:
+                    x = src.next()
+                    if x is LazyGen.DONE:
+                        break
+                    self.assign(g.target, x, fr)
+                    if all(self.truth(self.eval(c, fr), c) for c in g.ifs):
+                        rec(i + 1, fr)
+                return
             for x in self.iterate(src, g.iter):
                 self.assign(g.target, x, fr)
                 if all(self.truth(self.eval(c, fr), c) for c in g.ifs):
